@@ -159,10 +159,39 @@ def run(ctx):
                                    "ops": small, "go_classes": go_classes(small), "model_classes": mo_classes(small)},
                                   found_input=False)
                 reported += 1
+    # ---- whole lexer states: the literals and ranges expected in a state as the GENERATOR feeds them into the set (getSymbolClasses):
+    # the verified generator model computes every state's classes as Ranges.classes of the expected terminals of its items; its
+    # DFA (class lists in order, per state) must equal gocc's. Alphabets with code points that collide under narrowing conversions.
+    import c01, gen, lexgen, subprocess
+    ws = gen.Workspace(ctx)
+    COLL = [["a", "\u0161", "\u0261", "b", "\u0162"], ["\u00ff", "\uffff", "\u01ff", "\U0001ffff", "z"], ["\u0100", "\u0800", "\U00010000", "\x00", "\u0300"],
+            ["\x7f", "\u0080", "\u07ff", "\u0800", "\uffff", "\U00010000", "a"], ["a", "\U00010061", "\u1061", "\u0061", "\U00100061"]]
+    state_cases = 0
+    state_bad = []
+    for gi in range(15 if ctx.tier == "quick" else 150):
+        lg, _ = lexgen.gen_lex_grammar(ctx.rng, safe_regdefs=True, alpha=COLL[gi % len(COLL)])
+        rc, out, d = ws.gocc("s%d" % gi, lg.text(), timeout=60)
+        if rc != 0:
+            continue
+        dump, _ = c01.lexdump(ctx, d)
+        if not dump:
+            continue
+        v = subprocess.run([ctx.modelrun, "lexgen", dump, "100000"], capture_output=True, text=True, timeout=600).stdout.strip()
+        state_cases += 1
+        if not v.startswith("EQUAL"):
+            state_bad.append({"grammar": lg.text(), "lexgen_vs_gocc": v})
+    ctx.add_obligation("K: per lexer state, gocc's rune classes = Ranges.classes of the terminals expected in the state (LexGen model) on %d "
+                       "lexical grammars over alphabets with code points equal modulo 256 / 65536" % state_cases, not state_bad, str(state_bad[:1])[:600])
+    for b in state_bad[:2]:
+        if reported < 5:
+            ctx.violation(dict(b, kind="correspondence-broken", correspondence="rune classes of gocc's lexer states vs LexGen/Ranges.classes"),
+                          found_input=False)
+            reported += 1
     for o in ctx.failed_obligations():
-        ctx.violation({"kind": "proof-obligation-broken", "obligation": o}, found_input=False)
+        if not o["name"].startswith("K: per lexer state"):
+            ctx.violation({"kind": "proof-obligation-broken", "obligation": o}, found_input=False)
     ctx.write_evidence("proof", {
-        "evaluations": len(seqs),
+        "evaluations": len(seqs), "lexer_state_level_grammars": state_cases,
         "distinct_nontrivial": len(distinct),
         "rule": "random interval sequences (length 0-%d; endpoints from a tiny alphabet to force all eleven "
                 "AddRange cases, or around UTF-8/surrogate boundaries; singletons, duplicates, reversed=empty intervals); "
